@@ -104,6 +104,10 @@ class Runner:
                         '-Xclang', '-plugin-arg-amcsa', '-Xclang', 'out=' + out]
                 for r in (unit.roots or [os.path.join(REPO, 'include', 'amc') + '/']):
                     cmd += ['-Xclang', '-plugin-arg-amcsa', '-Xclang', 'root=' + r]
+                for r in (DRIVERS + '/', FIXTURES + '/'):
+                    cmd += ['-Xclang', '-plugin-arg-amcsa', '-Xclang', 'drv=' + r]
+                if unit.path:
+                    cmd += ['-Xclang', '-plugin-arg-amcsa', '-Xclang', 'nomain']
         else:
             cmd += ['-fmax-errors=0', '-w'] if not unit.extra_has_w() else ['-fmax-errors=0']
         cmd.append(src)
@@ -404,8 +408,9 @@ def conclude(prop, tier, results, runner, t0, explanation, assumptions, trusted,
         'wall_s': round(time.time() - t0, 2),
         'violations': len(viol),
     }
-    os.makedirs(os.path.join(VERIF, 'evidence'), exist_ok=True)
-    with open(os.path.join(VERIF, 'evidence', prop + '.json'), 'w') as f:
+    evdir = os.environ.get('VERIF_EVIDENCE_DIR') or os.path.join(VERIF, 'evidence')
+    os.makedirs(evdir, exist_ok=True)
+    with open(os.path.join(evdir, prop + '.json'), 'w') as f:
         json.dump(ev, f, indent=1, sort_keys=True)
         f.write('\n')
     for r in results:
@@ -414,9 +419,10 @@ def conclude(prop, tier, results, runner, t0, explanation, assumptions, trusted,
     for f in kfs:
         print('KNOWN-FINDING: property=%s %s at %s: %s' % (prop, f.key, f.site, kn[f.key] or f.message))
     if viol:
-        os.makedirs(os.path.join(VERIF, 'replays'), exist_ok=True)
+        rpdir = os.environ.get('VERIF_REPLAY_DIR') or os.path.join(VERIF, 'replays')
+        os.makedirs(rpdir, exist_ok=True)
         for i, f in enumerate(viol):
-            rp = os.path.join(VERIF, 'replays', '%s-%s-%d.json' % (prop, tier, i))
+            rp = os.path.join(rpdir, '%s-%s-%d.json' % (prop, tier, i))
             with open(rp, 'w') as fh:
                 json.dump({'property': prop, 'tier': tier, 'finding': f.as_dict()}, fh, indent=1)
             print('%s: [%s] %s\n    in %s\n    key %s' % (f.site, f.rule, f.message, f.where, f.key))
